@@ -1,6 +1,5 @@
 import HH.Avx
 import HH.Proofs.X86Lemmas
-import Std.Tactic.BVDecide
 import HH.Proofs.PortableSpec
 import Mathlib.Tactic.IntervalCases
 /-!
@@ -88,16 +87,31 @@ theorem new_refines (k : V4) : toPortable (new k).r = (P.new k).st := by
 
 /-! ### remainder: every pending count 0..31, all byte values -/
 
+theorem lane32_set (e3 e2 e1 e0 : BitVec 32) :
+    lane32 (set_epi32 e3 e2 e1 e0) 0 = e0 ∧ lane32 (set_epi32 e3 e2 e1 e0) 1 = e1 ∧ lane32 (set_epi32 e3 e2 e1 e0) 2 = e2 ∧ lane32 (set_epi32 e3 e2 e1 e0) 3 = e3 :=
+  lane32_mk32 e3 e2 e1 e0
+
+theorem sizeLane' (n : Nat) (h : n < 32) : lane32 (cvtsi64_si128 (BitVec.ofNat 64 n)) 0 = BitVec.ofNat 32 n := by
+  simp only [cvtsi64_si128, lane32_0, lo64_mk]
+  apply BitVec.eq_of_toNat_eq
+  simp [BitVec.toNat_setWidth, BitVec.toNat_ofNat]
+
 set_option maxRecDepth 100000 in
-set_option maxHeartbeats 8000000 in
+set_option maxHeartbeats 16000000 in
 theorem remainder_refines_fn (n : Nat) (h : n < 32) (f : Fin 32 → BitVec 8) :
     r256ToV4 (remainder (List.ofFn f) n) = P.dataToLanes (P.remainder ((List.ofFn f).take n)) := by
+  have s0 := fun x => lane32_set1 x 0 (by decide)
+  have s1 := fun x => lane32_set1 x 1 (by decide)
+  have s2 := fun x => lane32_set1 x 2 (by decide)
+  have s3 := fun x => lane32_set1 x 3 (by decide)
   interval_cases n <;>
-  simp [remainder, P.remainder, P.dataToLanes, r256ToV4, unorderedLoad3, zeros, List.ofFn_succ,
-    List.replicate, List.set, List.getD, List.zipWith, loadu_si128, ofBytes16, le64, le32, maskload_epi32, maskLane,
-    cmpgt_epi32, cmpgt32, set_epi32, broadcastd_epi32, castsi256_si128, castsi128_si256, inserti128_si256,
-    insert_epi32, cvtsi64_si128, set1_epi32, lane32, mk32, mk, lo64, hi64] <;>
-  bv_decide
+  (simp [remainder, P.remainder, P.dataToLanes, r256ToV4, unorderedLoad3, zeros, List.ofFn_succ, List.replicate, List.set, List.zipWith,
+    loadu_si128, broadcastd_epi32, castsi256_si128, castsi128_si256, inserti128_si256, cmpgt_epi32, cmpgt32, maskload_epi32, maskLane,
+    s0, s1, s2, s3, sizeLane' _ h, (lane32_set _ _ _ _).1, (lane32_set _ _ _ _).2.1, (lane32_set _ _ _ _).2.2.1, (lane32_set _ _ _ _).2.2.2,
+    (lane32_mk32 _ _ _ _).1, (lane32_mk32 _ _ _ _).2.1, (lane32_mk32 _ _ _ _).2.2.1, (lane32_mk32 _ _ _ _).2.2.2]
+   try simp only [ofBytes16_mk32, insert3, lo64_mk32, hi64_mk32, le64_join, List.drop_succ_cons, List.drop_zero]
+   try simp only [cvtsi64_si128, lo64_mk, hi64_mk, load3_1, load3_2, load3_3]
+   try simp [le32_cons4, le32_zero4, and_ones32, join32_zero])
 
 theorem list_eq_ofFn (buf : List (BitVec 8)) (h : buf.length = 32) :
     buf = List.ofFn (fun i : Fin 32 => buf[i.val]'(by omega)) := by
@@ -132,10 +146,7 @@ theorem vsize_add (v : BitVec 128) (n : Nat) (h : n < 32) :
   · simp only [hi64_add, hi64_mk]; congr 1
     interval_cases n <;> decide
 
-theorem sizeLane (n : Nat) (h : n < 32) : lane32 (cvtsi64_si128 (BitVec.ofNat 64 n)) 0 = BitVec.ofNat 32 n := by
-  simp only [cvtsi64_si128, lane32_0, lo64_mk]
-  apply BitVec.eq_of_toNat_eq
-  simp [BitVec.toNat_setWidth, BitVec.toNat_ofNat]
+theorem sizeLane (n : Nat) (h : n < 32) : lane32 (cvtsi64_si128 (BitVec.ofNat 64 n)) 0 = BitVec.ofNat 32 n := sizeLane' n h
 
 theorem tipLane : lane32 (cvtsi32_si128 32) 0 = 32#32 := by decide
 
